@@ -154,6 +154,16 @@ def C15(tier, seed):
                            "may succeed), failed probes to be atomic, and the unsubstituted instruction to succeed; thorough tier substitutes every candidate"}
 
 
+def C16(tier, seed):
+    drivers = hist_jobs("hist_t22fee_", seed, 5 if tier == "quick" else 16, 4 if tier == "quick" else 40, 200 if tier == "quick" else 300, "t22fee")
+    drivers += fn_jobs("tfee", tier, seed, 400, 8000, shards_q=2, shards_t=8)
+    return {"active": ["C16"], "drivers": drivers, "models": [mc("MC_TransferFee", tier, "MC_TransferFee")],
+            "must_exercise": {"swap_v2": 50, "increase_liquidity_v2": 20, "decrease_liquidity_v2": 20},
+            "explanation": "ExclOK/InclOK (smallest fee-included amount, fee adds back, 100% case, epoch selection) on the Anchor and Pinocchio functions over a boundary grid; histories on Token-2022 "
+                           "pools with transfer fees where the real Token-2022 processor moves the tokens: vault receives >= curve amount, pays exactly the curve output, requests are the smallest "
+                           "fee-included amounts, thresholds/maxima/minima apply to what the user actually pays/receives, event fields equal the amounts moved; toy domain: existence/uniqueness/monotonicity"}
+
+
 def C12(tier, seed):
     drivers = []
     for tk, rw in (("spl", "0"), ("t22", "1"), ("t22fee", "0")):
@@ -204,4 +214,4 @@ def C08(tier, seed):
     return p
 
 
-PLANS = {"C01": C01, "C02": C02, "C03": C03, "C04": C04, "C15": C15, "C05": C05, "C06": C06, "C07": C07, "C11": C11, "C12": C12, "C13": C13, "C08": C08, "C09": C09}
+PLANS = {"C01": C01, "C02": C02, "C03": C03, "C04": C04, "C15": C15, "C16": C16, "C05": C05, "C06": C06, "C07": C07, "C11": C11, "C12": C12, "C13": C13, "C08": C08, "C09": C09}
